@@ -285,11 +285,12 @@ class ReverseComplementer(SingleEndModifier):
 
         forward_score = sum(m.score for m in forward_matches)
         reverse_score = sum(m.score for m in reverse_matches)
-        use_reverse_complement = reverse_score > forward_score
+        # The score of an alignment can be negative, so a reverse complement
+        # without any match (score 0) must not win over a forward match
+        use_reverse_complement = bool(reverse_matches) and reverse_score > forward_score
 
         if use_reverse_complement:
             self.reverse_complemented += 1
-            assert reverse_matches
             trimmed_read, matches = reverse_trimmed_read, reverse_matches
             info.is_rc = True
             if self._suffix:
@@ -371,7 +372,10 @@ class PairedReverseComplementer(PairedEndModifier):
         )
 
         # Compare and pick the variant that is better
-        use_reverse_complement = swapped_score > unswapped_score
+        use_reverse_complement = (
+            bool(r1_matches_swapped or r2_matches_swapped)
+            and swapped_score > unswapped_score
+        )
 
         if use_reverse_complement:
             self.reverse_complemented += 1
